@@ -302,7 +302,7 @@ PROPERTIES = {
             "technique": "TLA+ model of proof construction and of the verifier with ideal hashing (ProofOps.tla, ProofModel.tla) checked by TLC; "
                          "every enumerated (tree, query, mutation) case executed through rootmulti Query(prove=true) and DefaultProofRuntime; "
                          "recorded traces over arbitrary byte-string keys validated by TLC (TraceProof.tla)",
-            "text": "TLC enumerates all trees over 4-5 keys at <= 2-3 versions, every query position and ~35 mutations per witness, and decides "
+            "text": "TLC enumerates all trees over 4 keys / <= 2 versions (quick) or 5 keys / <= 3 versions (thorough), every query position and ~35 mutations per witness, and decides "
                     "with the transcribed verifier which are accepted; the same cases run against the real code. Completeness: every honest "
                     "answer verifies. Soundness: no false claim and no altered witness verifies, except the forgeries listed as known findings "
                     "(reported on every run).",
